@@ -130,7 +130,7 @@ def sess_runs(ctx, props, n_quick, n_thorough, ln=(30, 60)):
         fold(ctx, res, props + ["SESS"], f"session model vs real Session, seed {s}")
 
 
-REALTIME = {"C06", "C07", "C10", "C14", "C16"}
+REALTIME = {"C06", "C07", "C10", "C14", "C15", "C16"}
 
 
 def sess_prop(pid, modules, technique, assumptions, nontrivial):
